@@ -885,6 +885,11 @@ func (t *gfTr) bindTarget(at ast.Node, lhs ast.Expr, v string, k gfKind) string 
 }
 
 func (t *gfTr) assign(x *ast.AssignStmt, rest []ast.Stmt) string {
+	return t.assignLets(x) + t.stmts(rest)
+}
+
+// assignLets translates an assignment statement to its let-prefix.
+func (t *gfTr) assignLets(x *ast.AssignStmt) string {
 	// a, b := f()  /  v, ok := m[k]  /  y, ok := z.(T): every left side gets a leaf of its own
 	if len(x.Lhs) > 1 && len(x.Rhs) == 1 {
 		out := ""
@@ -925,7 +930,7 @@ func (t *gfTr) assign(x *ast.AssignStmt, rest []ast.Stmt) string {
 			}
 			out += t.bindTarget(x, id, name, k)
 		}
-		return out + t.stmts(rest)
+		return out
 	}
 	if len(x.Lhs) != len(x.Rhs) {
 		t.fail(x, "unsupported assignment: %s", t.text(x))
@@ -945,7 +950,7 @@ func (t *gfTr) assign(x *ast.AssignStmt, rest []ast.Stmt) string {
 			}
 			out += t.bindTarget(x, l, vs[i], ks[i])
 		}
-		return out + t.stmts(rest)
+		return out
 	}
 	lhs := x.Lhs[0]
 	var v string
@@ -965,7 +970,7 @@ func (t *gfTr) assign(x *ast.AssignStmt, rest []ast.Stmt) string {
 	}
 	if id, ok := lhs.(*ast.Ident); ok {
 		if id.Name == "_" {
-			return t.stmts(rest)
+			return ""
 		}
 		if x.Tok == token.DEFINE {
 			if _, exists := t.locals[id.Name]; exists {
@@ -974,7 +979,7 @@ func (t *gfTr) assign(x *ast.AssignStmt, rest []ast.Stmt) string {
 			t.locals[id.Name] = k
 		}
 	}
-	return t.bindTarget(x, lhs, v, k) + t.stmts(rest)
+	return t.bindTarget(x, lhs, v, k)
 }
 
 func gf_firstLine(s string) string {
@@ -987,6 +992,15 @@ func gf_firstLine(s string) string {
 // stmtsInit translates the init statement of an if/switch (a single assignment) to its let-prefix.
 func (t *gfTr) stmtsInit(s ast.Stmt) string {
 	as, ok := s.(*ast.AssignStmt)
+	if ok && as.Tok == token.DEFINE && len(as.Lhs) > 1 && len(as.Rhs) == 1 {
+		// x, err := f(): one leaf per left side; the variables may shadow outer ones inside the statement
+		for _, l := range as.Lhs {
+			if id, isId := l.(*ast.Ident); isId {
+				delete(t.locals, id.Name)
+			}
+		}
+		return t.assignLets(as)
+	}
 	if !ok || len(as.Lhs) != 1 || len(as.Rhs) != 1 || as.Tok != token.DEFINE {
 		t.fail(s, "unsupported init statement: %s", t.text(s))
 	}
